@@ -99,7 +99,7 @@ def run(ctx):
 		ctx.submit(case, lines, nontrivial=nt, tags=[tag], pyfails=pf)
 
 	exts = ['.fasta', '.fa', '.fna.gz', '.gz', '.txt', '', '.fasta.gz']
-	for j in range(ctx.q(150, 3000)):
+	for j in range(ctx.q(450, 3000)):
 		if not ctx.time_left(0.9):
 			break
 		k, prefix = rng.choice([(4, 'AT'), (5, 'ATG'), (3, 'A'), (6, 'AT'), (11, 'ATGAC'), (2, 'TA')])
